@@ -371,8 +371,13 @@ func (re *Regexp) findAllRunesIndex(runner *Runner, input []rune, startAt, n int
 	var out [][]int
 	var flat []int
 	if n > 0 {
-		out = make([][]int, 0, n)
-		flat = make([]int, 0, n*2)
+		// at most one match per position is reported, whatever n asks for
+		c := n
+		if c > len(input)+1 {
+			c = len(input) + 1
+		}
+		out = make([][]int, 0, c)
+		flat = make([]int, 0, c*2)
 	}
 
 	prevEnd := -1
